@@ -1,26 +1,567 @@
-//! C06: not implemented yet.
+//! C06: compile-time evaluation agrees with run-time evaluation.
+//! Monitor: expression trees over boundary-biased literal operands are emitted four ways in one
+//! script - `const`, `configurable` default, a function over literals (folded by the optimiser in
+//! release) and a function over run-time arguments holding the same operands - and the four
+//! observed values must be equal to each other and to the reference interpreter. Expressions
+//! whose run-time evaluation reverts are emitted alone: the compiler must reject them or the
+//! program must revert at run time, never yield a value.
 use crate::common::*;
+use crate::engine::*;
+use crate::swgen::*;
+use crate::swgen_gen::{gen_int, gen_small_int};
 use crate::{Plan, Prop};
+use rand::rngs::StdRng;
+use rand::Rng;
+use serde_json::{json, Value};
+use std::panic::AssertUnwindSafe;
 
 pub static META: PropertyMeta = PropertyMeta {
     id: "C06",
     level: "exploration",
-    rule: "not implemented",
-    assumptions: &[],
-    floor_evaluations: 1,
-    floor_nontrivial: 2,
-    required_counters: &[],
+    rule: "random expression trees (depth <= 4) over + - * / % & | ^ ! << >> comparisons && || if-expressions tuples/structs/arrays and calls of small user functions, for u8 u16 u32 u64 u256 b256 bool, operands boundary-biased (0, 1, max, max-1, powers of two +-1, shift amounts around the width); each non-reverting expression is observed as const / configurable / folded / run-time (4 logged values, debug and release); each would-revert expression is compiled alone as const, configurable and folded variant; an evaluation = one expression; non-trivial = expression with >= 2 operators whose value differs from all of its operands; distinct = hash of the expression text with operand values",
+    assumptions: &["fuel-vm 0.66 is the trusted execution substrate", "a compile error for a non-reverting expression is not a violation (the property speaks of values the compiler computes); it is counted as rejected"],
+    floor_evaluations: 100,
+    floor_nontrivial: 30,
+    required_counters: &["components_compared", "would_revert_cases", "const_values_observed", "configurable_values_observed", "folded_values_observed", "runtime_values_observed"],
 };
 
 pub static PROP: Prop = Prop {
     meta: &META,
-    plan: |_t| Plan { nshards: 1, budget_s: 1.0, mem_gib: 0 },
-    shard: |_ctx| {
-        let mut r = ShardResult::default();
-        r.harness_fault = Some("not implemented".into());
-        r
-    },
-    replay: crate::no_replay,
+    plan: |t| Plan { nshards: 16, budget_s: t.pick(55.0, 1000.0), mem_gib: 6 },
+    shard,
+    replay,
     extra: crate::no_extra,
     subcommand: crate::no_subcommand,
 };
+
+fn e(ty: Ty, k: EK) -> Expr {
+    Expr { ty, k: Box::new(k) }
+}
+
+struct G<'r> {
+    rng: &'r mut StdRng,
+    leaves: Vec<(String, Ty, Val)>,
+    ops: Vec<String>,
+    uses_helper: bool,
+}
+
+const INTS: [Ty; 5] = [Ty::U8, Ty::U16, Ty::U32, Ty::U64, Ty::U256];
+
+impl<'r> G<'r> {
+    fn leaf(&mut self, t: &Ty) -> Expr {
+        let v = match t {
+            Ty::Bool => Val::Bool(self.rng.gen_bool(0.5)),
+            _ => {
+                if self.rng.gen_bool(0.4) {
+                    Val::Int(gen_small_int(self.rng, t))
+                } else {
+                    Val::Int(gen_int(self.rng, t))
+                }
+            }
+        };
+        if self.rng.gen_bool(0.12) || self.leaves.len() >= 3 {
+            return e(t.clone(), EK::Lit(v));
+        }
+        let name = format!("l{}", self.leaves.len());
+        self.leaves.push((name.clone(), t.clone(), v));
+        e(t.clone(), EK::Var(name))
+    }
+
+    fn shift_amount(&mut self, w: u64) -> Expr {
+        let c = *crate::common::choose(self.rng, &[0u64, 1, 7, 8, 9, 15, 16, 17, 31, 32, 33, 63, 64, 65, 127, 128, 255, 256, 257]);
+        let c = if self.rng.gen_bool(0.7) { c.min(w + 1) } else { c };
+        if self.rng.gen_bool(0.5) && self.leaves.len() < 3 {
+            let name = format!("l{}", self.leaves.len());
+            self.leaves.push((name.clone(), Ty::U64, Val::Int(big(c))));
+            e(Ty::U64, EK::Var(name))
+        } else {
+            e(Ty::U64, EK::Lit(Val::Int(big(c))))
+        }
+    }
+
+    fn expr(&mut self, t: &Ty, depth: usize) -> Expr {
+        if depth == 0 {
+            return self.leaf(t);
+        }
+        match t {
+            Ty::Bool => match self.rng.gen_range(0..10) {
+                0..=5 => {
+                    let st = if self.rng.gen_bool(0.85) { INTS[self.rng.gen_range(0..5)].clone() } else { Ty::B256 };
+                    let op = *crate::common::choose(self.rng, &[BinOp::Eq, BinOp::Ne, BinOp::Lt, BinOp::Le, BinOp::Gt, BinOp::Ge]);
+                    self.ops.push(format!("{}.{}", op.name(), type_name(&st)));
+                    let a = self.expr(&st, depth - 1);
+                    let b = self.expr(&st, depth - 1);
+                    e(Ty::Bool, EK::Bin(op, a, b))
+                }
+                6..=7 => {
+                    let op = if self.rng.gen_bool(0.5) { BinOp::LAnd } else { BinOp::LOr };
+                    self.ops.push(format!("{}.bool", op.name()));
+                    let a = self.expr(t, depth - 1);
+                    let b = self.expr(t, depth - 1);
+                    e(Ty::Bool, EK::Bin(op, a, b))
+                }
+                8 => {
+                    self.ops.push("not.bool".into());
+                    let a = self.expr(t, depth - 1);
+                    e(Ty::Bool, EK::Not(a))
+                }
+                _ => self.leaf(t),
+            },
+            Ty::B256 => match self.rng.gen_range(0..10) {
+                0..=4 => {
+                    let op = *crate::common::choose(self.rng, &[BinOp::And, BinOp::Or, BinOp::Xor]);
+                    self.ops.push(format!("{}.b256", op.name()));
+                    let a = self.expr(t, depth - 1);
+                    let b = self.expr(t, depth - 1);
+                    e(Ty::B256, EK::Bin(op, a, b))
+                }
+                5..=6 => {
+                    self.ops.push("not.b256".into());
+                    let a = self.expr(t, depth - 1);
+                    e(Ty::B256, EK::Not(a))
+                }
+                7 => {
+                    let op = if self.rng.gen_bool(0.5) { BinOp::Shl } else { BinOp::Shr };
+                    self.ops.push(format!("{}.b256", op.name()));
+                    let a = self.expr(t, depth - 1);
+                    let n = self.shift_amount(256);
+                    e(Ty::B256, EK::Bin(op, a, n))
+                }
+                _ => self.leaf(t),
+            },
+            _ => match self.rng.gen_range(0..100) {
+                0..=44 => {
+                    let op = *crate::common::choose(self.rng, &[BinOp::Add, BinOp::Sub, BinOp::Mul, BinOp::Div, BinOp::Mod]);
+                    self.ops.push(format!("{}.{}", op.name(), type_name(t)));
+                    let a = self.expr(t, depth - 1);
+                    let b = self.expr(t, depth - 1);
+                    e(t.clone(), EK::Bin(op, a, b))
+                }
+                45..=62 => {
+                    let op = *crate::common::choose(self.rng, &[BinOp::And, BinOp::Or, BinOp::Xor]);
+                    self.ops.push(format!("{}.{}", op.name(), type_name(t)));
+                    let a = self.expr(t, depth - 1);
+                    let b = self.expr(t, depth - 1);
+                    e(t.clone(), EK::Bin(op, a, b))
+                }
+                63..=76 => {
+                    let op = if self.rng.gen_bool(0.5) { BinOp::Shl } else { BinOp::Shr };
+                    self.ops.push(format!("{}.{}", op.name(), type_name(t)));
+                    let a = self.expr(t, depth - 1);
+                    let n = self.shift_amount(t.bits() as u64);
+                    e(t.clone(), EK::Bin(op, a, n))
+                }
+                77..=82 => {
+                    self.ops.push(format!("not.{}", type_name(t)));
+                    let a = self.expr(t, depth - 1);
+                    e(t.clone(), EK::Not(a))
+                }
+                83..=88 => {
+                    self.ops.push("if".into());
+                    let c = self.expr(&Ty::Bool, depth - 1);
+                    let a = self.expr(t, depth - 1);
+                    let b = self.expr(t, depth - 1);
+                    e(t.clone(), EK::If(c, Block { stmts: vec![], tail: Some(a) }, Block { stmts: vec![], tail: Some(b) }))
+                }
+                89..=92 => {
+                    // aggregate construction + projection
+                    self.ops.push("tuple".into());
+                    let other = INTS[self.rng.gen_range(0..5)].clone();
+                    let a = self.expr(t, depth - 1);
+                    let b = self.expr(&other, depth - 1);
+                    let tt = Ty::Tuple(vec![other.clone(), t.clone()]);
+                    e(t.clone(), EK::TupleGet(e(tt, EK::Tuple(vec![b, a])), 1))
+                }
+                93..=95 => {
+                    self.ops.push("array".into());
+                    let a = self.expr(t, depth - 1);
+                    let b = self.expr(t, depth - 1);
+                    let at = Ty::Array(Box::new(t.clone()), 2);
+                    let idx = e(Ty::U64, EK::Lit(Val::Int(big(self.rng.gen_range(0..2)))));
+                    e(t.clone(), EK::Index(e(at, EK::Array(vec![a, b])), idx))
+                }
+                96..=97 if *t == Ty::U64 => {
+                    // user function call (const-fn style): helper cf_mix(a, b) = (a ^ b) + (a & b)
+                    self.ops.push("call".into());
+                    self.uses_helper = true;
+                    let a = self.expr(t, depth - 1);
+                    let b = self.expr(t, depth - 1);
+                    e(Ty::U64, EK::Call(1, vec![a, b]))
+                }
+                _ => self.leaf(t),
+            },
+        }
+    }
+}
+
+fn type_name(t: &Ty) -> String {
+    Types::default().name(t)
+}
+
+#[derive(Clone)]
+pub struct CExpr {
+    pub ty: Ty,
+    pub expr: Expr,
+    pub leaves: Vec<(String, Ty, Val)>,
+    pub ops: Vec<String>,
+}
+
+fn subst(x: &Expr, leaves: &[(String, Ty, Val)]) -> Expr {
+    let mut y = x.clone();
+    fn go(x: &mut Expr, leaves: &[(String, Ty, Val)]) {
+        if let EK::Var(n) = &*x.k {
+            if let Some((_, _, v)) = leaves.iter().find(|(ln, _, _)| ln == n) {
+                *x.k = EK::Lit(v.clone());
+                return;
+            }
+        }
+        match &mut *x.k {
+            EK::Bin(_, a, b) | EK::Index(a, b) => {
+                go(a, leaves);
+                go(b, leaves);
+            }
+            EK::Not(a) | EK::TupleGet(a, _) => go(a, leaves),
+            EK::Tuple(es) | EK::Array(es) | EK::Call(_, es) => es.iter_mut().for_each(|a| go(a, leaves)),
+            EK::If(c, t, f) => {
+                go(c, leaves);
+                if let Some(t) = &mut t.tail {
+                    go(t, leaves);
+                }
+                if let Some(f) = &mut f.tail {
+                    go(f, leaves);
+                }
+            }
+            _ => {}
+        }
+    }
+    go(&mut y, leaves);
+    y
+}
+
+/// funcs[1] of every C06 program: a small user function called from constant expressions
+fn helper_func() -> Func {
+    let a = e(Ty::U64, EK::Var("a".into()));
+    let b = e(Ty::U64, EK::Var("b".into()));
+    let x = e(Ty::U64, EK::Bin(BinOp::Xor, a.clone(), b.clone()));
+    let y = e(Ty::U64, EK::Bin(BinOp::And, a, b));
+    Func { name: "cf_mix".into(), params: vec![("a".into(), Ty::U64, false), ("b".into(), Ty::U64, false)], ret: Ty::U64, body: Block { stmts: vec![], tail: Some(e(Ty::U64, EK::Bin(BinOp::Add, x, y))) }, inline_never: false }
+}
+
+fn program_for(c: &CExpr) -> Program {
+    let f = Func { name: "rt".into(), params: c.leaves.iter().map(|(n, t, _)| (n.clone(), t.clone(), false)).collect(), ret: c.ty.clone(), body: Block { stmts: vec![], tail: Some(c.expr.clone()) }, inline_never: false };
+    Program { types: Types::default(), consts: vec![], funcs: vec![f, helper_func()], main_params: c.leaves.iter().map(|(_, t, _)| t.clone()).collect(), ret: c.ty.clone(), entries: vec![0], uses_generics: false }
+}
+
+fn reference(c: &CExpr) -> Result<Vec<u8>, RevertKind> {
+    let p = program_for(c);
+    let args: Vec<Val> = c.leaves.iter().map(|(_, _, v)| v.clone()).collect();
+    Interp::run(&p, 0, &args).0.result
+}
+
+fn print_expr(x: &Expr) -> String {
+    let dummy = Func { name: "rt".into(), params: vec![], ret: Ty::U64, body: Block::default(), inline_never: false };
+    let p = Program { types: Types::default(), consts: vec![], funcs: vec![dummy, helper_func()], main_params: vec![], ret: Ty::U64, entries: vec![], uses_generics: false };
+    let mut pr = Printer::new(&p);
+    pr.expr(x)
+}
+
+pub fn gen_cexpr(rng: &mut StdRng) -> CExpr {
+    let ty = match rng.gen_range(0..20) {
+        0..=2 => Ty::U8,
+        3..=4 => Ty::U16,
+        5..=6 => Ty::U32,
+        7..=10 => Ty::U64,
+        11..=14 => Ty::U256,
+        15..=16 => Ty::B256,
+        _ => Ty::Bool,
+    };
+    let depth = rng.gen_range(1..=3);
+    let mut g = G { rng, leaves: vec![], ops: vec![], uses_helper: false };
+    let expr = g.expr(&ty, depth);
+    CExpr { ty, expr, leaves: g.leaves, ops: g.ops }
+}
+
+const HELPER: &str = "fn cf_mix(a: u64, b: u64) -> u64 {\n    (a ^ b) + (a & b)\n}\n";
+
+/// The batch script for non-reverting expressions.
+fn batch_source(cs: &[CExpr]) -> String {
+    let mut s = String::from("script;\n\n");
+    s.push_str(HELPER);
+    for (i, c) in cs.iter().enumerate() {
+        let lit = print_expr(&subst(&c.expr, &c.leaves));
+        let tn = type_name(&c.ty);
+        s.push_str(&format!("const C{i}: {tn} = {lit};\n"));
+    }
+    s.push_str("configurable {\n");
+    for (i, c) in cs.iter().enumerate() {
+        let lit = print_expr(&subst(&c.expr, &c.leaves));
+        s.push_str(&format!("    K{i}: {} = {lit},\n", type_name(&c.ty)));
+    }
+    s.push_str("}\n");
+    for (i, c) in cs.iter().enumerate() {
+        let tn = type_name(&c.ty);
+        let params: Vec<String> = c.leaves.iter().map(|(n, t, _)| format!("{n}: {}", type_name(t))).collect();
+        s.push_str(&format!("#[inline(never)]\nfn rt{i}({}) -> {tn} {{\n    {}\n}}\n", params.join(", "), print_expr(&c.expr)));
+        s.push_str(&format!("fn fold{i}() -> {tn} {{\n    {}\n}}\n", print_expr(&subst(&c.expr, &c.leaves))));
+    }
+    // main: all leaves of all expressions are parameters
+    let mut params = vec!["sel: u64".to_string()];
+    for (i, c) in cs.iter().enumerate() {
+        for (n, t, _) in &c.leaves {
+            params.push(format!("p{i}_{n}: {}", type_name(t)));
+        }
+    }
+    s.push_str(&format!("fn main({}) -> u64 {{\n", params.join(", ")));
+    for (i, c) in cs.iter().enumerate() {
+        let args: Vec<String> = c.leaves.iter().map(|(n, _, _)| format!("p{i}_{n}")).collect();
+        s.push_str(&format!("    if sel == {i}u64 {{\n        log(C{i});\n        log(K{i});\n        log(fold{i}());\n        log(rt{i}({}));\n    }}\n", args.join(", ")));
+    }
+    s.push_str("    0u64\n}\n");
+    s
+}
+
+fn batch_data(cs: &[CExpr], sel: u64) -> Vec<u8> {
+    let mut d = sel.to_be_bytes().to_vec();
+    let types = Types::default();
+    for c in cs {
+        for (_, t, v) in &c.leaves {
+            encode(t, v, &types, &mut d);
+        }
+    }
+    d
+}
+
+fn single_source(c: &CExpr, variant: &str) -> String {
+    let tn = type_name(&c.ty);
+    let lit = print_expr(&subst(&c.expr, &c.leaves));
+    match variant {
+        "const" => format!("script;\n{HELPER}const C: {tn} = {lit};\nfn main() -> {tn} {{\n    C\n}}\n"),
+        "configurable" => format!("script;\n{HELPER}configurable {{\n    K: {tn} = {lit},\n}}\nfn main() -> {tn} {{\n    K\n}}\n"),
+        _ => format!("script;\n{HELPER}fn fold() -> {tn} {{\n    {lit}\n}}\nfn main() -> {tn} {{\n    fold()\n}}\n"),
+    }
+}
+
+fn expr_text(c: &CExpr) -> String {
+    print_expr(&subst(&c.expr, &c.leaves))
+}
+
+fn nontrivial(c: &CExpr, value: &[u8]) -> bool {
+    if c.ops.len() < 2 {
+        return false;
+    }
+    let types = Types::default();
+    !c.leaves.iter().any(|(_, t, v)| *t == c.ty && encoded(t, v, &types) == value)
+}
+
+fn run_batch(am: &mut Amortised, cs: &[CExpr], refs: &[Vec<u8>], res: &mut ShardResult) {
+    let src = batch_source(cs);
+    for profile in Profile::BOTH {
+        let c = match catch(AssertUnwindSafe(|| am.compile("gencase", &src, profile))) {
+            Ok(Ok(c)) => c,
+            Ok(Err(_)) => {
+                let _ = std::fs::remove_dir_all(am.last_dir());
+                res.count("batch_rejected");
+                // attribute: compile every expression alone (const variant) to count rejections per operator
+                if profile == Profile::Debug && cs.len() > 1 {
+                    let mut good = vec![];
+                    let mut good_refs = vec![];
+                    for (ce, r) in cs.iter().zip(refs) {
+                        let one = batch_source(std::slice::from_ref(ce));
+                        match catch(AssertUnwindSafe(|| am.compile("gencase", &one, profile))) {
+                            Ok(Ok(c1)) => {
+                                am.remove(&c1);
+                                good.push(ce.clone());
+                                good_refs.push(r.clone());
+                            }
+                            _ => {
+                                res.count("rejected_expressions");
+                                for o in &ce.ops {
+                                    res.count(&format!("rejected_with.{o}"));
+                                }
+                                let _ = std::fs::remove_dir_all(am.last_dir());
+                            }
+                        }
+                    }
+                    // the expressions the compiler can evaluate are observed as a smaller batch
+                    if !good.is_empty() && good.len() < cs.len() {
+                        run_batch(am, &good, &good_refs, res);
+                    }
+                    return;
+                }
+                continue;
+            }
+            Err((loc, msg)) => {
+                res.count("compiler_panics");
+                res.inconclusive(format!("compiler panicked at {loc}: {}", msg.chars().take(100).collect::<String>()));
+                let _ = std::fs::remove_dir_all(am.last_dir());
+                continue;
+            }
+        };
+        for (i, ce) in cs.iter().enumerate() {
+            let obs = run_script(&c.pkg.bytecode.bytes, &batch_data(cs, i as u64));
+            let text = expr_text(ce);
+            let replay = json!({"kind": "value", "expr": text, "type": type_name(&ce.ty), "source": src, "sel": i, "script_data": hex::encode(batch_data(cs, i as u64)), "expected": hex::encode(&refs[i]), "profile": profile.name()});
+            if obs.outcome.reverted() || obs.logs.len() != 4 {
+                res.violation(format!("const-eval-run-reverted:{:016x}", hash64(text.as_bytes())), format!("[{}] `{text}`: the reference value is {} but the run ended with {}", profile.name(), hex::encode(&refs[i]), obs.short()), replay);
+                continue;
+            }
+            let names = ["const", "configurable", "folded", "runtime"];
+            for (k, (_, data)) in obs.logs.iter().enumerate() {
+                res.count("components_compared");
+                res.count(&format!("{}_values_observed", names[k]));
+                if data != &refs[i] {
+                    res.violation(
+                        format!("compile-time-value-differs:{}:{:016x}", names[k], hash64(text.as_bytes())),
+                        format!("[{}] `{text}` : {} = {}, const/configurable/folded/runtime = {:?}; the documented semantics give {}", profile.name(), names[k], hex::encode(data), obs.logs.iter().map(|(_, d)| hex::encode(d)).collect::<Vec<_>>(), hex::encode(&refs[i])),
+                        replay.clone(),
+                    );
+                    break;
+                }
+            }
+            for o in &ce.ops {
+                res.count(&format!("op.{o}"));
+            }
+        }
+        am.remove(&c);
+    }
+}
+
+/// Some(true): the first failing operation's result is unobservable and the program produced the
+/// value all substituted reference runs agree on; Some(false): undecidable (a second failure
+/// follows); None: the failing operation is observable or the value is wrong -> violation.
+fn unobservable_failure(ce: &CExpr, obs: &Observation) -> Option<bool> {
+    let p = program_for(ce);
+    let args: Vec<Val> = ce.leaves.iter().map(|(_, _, v)| v.clone()).collect();
+    let mut vals = vec![];
+    for s in [Subst::Zero, Subst::One, Subst::Max, Subst::Wrapped] {
+        match Interp::run_with(&p, 0, &args, Some(s)).0.result {
+            Ok(v) => vals.push(v),
+            Err(RevertKind::Overflow) | Err(RevertKind::DivZero) => return Some(false),
+            Err(_) => return None,
+        }
+    }
+    if !vals.iter().all(|v| *v == vals[0]) {
+        return None;
+    }
+    match &obs.outcome {
+        Outcome::ReturnData(d) if *d == vals[0] => Some(true),
+        Outcome::Return(v) if v.to_be_bytes().to_vec() == vals[0] => Some(true),
+        _ => None,
+    }
+}
+
+fn run_would_revert(am: &mut Amortised, ce: &CExpr, kind: &RevertKind, res: &mut ShardResult) {
+    res.count("would_revert_cases");
+    let text = expr_text(ce);
+    for variant in ["const", "configurable", "folded"] {
+        let src = single_source(ce, variant);
+        for profile in Profile::BOTH {
+            match catch(AssertUnwindSafe(|| am.compile("gencase", &src, profile))) {
+                Ok(Ok(c)) => {
+                    let obs = run_script(&c.pkg.bytecode.bytes, &[]);
+                    am.remove(&c);
+                    if obs.outcome.reverted() {
+                        res.count(&format!("would_revert.{variant}.reverted_at_run_time"));
+                    } else if let Some(tolerated) = unobservable_failure(ce, &obs) {
+                        // invalid arithmetic whose result cannot influence the value is documented
+                        // undefined behaviour that the optimiser may remove (see swrun::compare_case)
+                        if tolerated {
+                            res.count(&format!("would_revert.{variant}.dead_invalid_arithmetic_removed_tolerated"));
+                        } else {
+                            res.inconclusive("a second invalid arithmetic operation follows the first; observability undecided");
+                        }
+                    } else {
+                        res.violation(
+                            format!("value-substituted-for-reverting-expression:{variant}:{:?}", kind),
+                            format!("[{} {variant}] `{text}` reverts at run time ({kind:?}) but the program compiled and produced {}", profile.name(), obs.short()),
+                            json!({"kind": "would_revert", "expr": text, "source": src, "variant": variant, "profile": profile.name()}),
+                        );
+                    }
+                }
+                Ok(Err(_)) => {
+                    res.count(&format!("would_revert.{variant}.rejected_at_compile_time"));
+                    let _ = std::fs::remove_dir_all(am.last_dir());
+                }
+                Err((loc, msg)) => {
+                    res.count("compiler_panics");
+                    res.inconclusive(format!("compiler panicked at {loc}: {}", msg.chars().take(100).collect::<String>()));
+                    let _ = std::fs::remove_dir_all(am.last_dir());
+                }
+            }
+        }
+    }
+}
+
+fn shard(ctx: &ShardCtx) -> ShardResult {
+    let mut res = ShardResult::default();
+    let mut am = Amortised::new(&ctx.work());
+    if let Err(e) = am.warm() {
+        res.harness_fault = Some(format!("std does not compile: {e}"));
+        return res;
+    }
+    let clock = ctx.clock();
+    let mut i = ctx.first_index;
+    while clock.left() {
+        let mut rng = ctx.rng(i);
+        let mut batch = vec![];
+        let mut refs = vec![];
+        let mut reverting = vec![];
+        for _ in 0..8 {
+            let ce = gen_cexpr(&mut rng);
+            res.evaluations += 1;
+            match reference(&ce) {
+                Ok(v) => {
+                    if nontrivial(&ce, &v) {
+                        res.note_nontrivial(hash64(expr_text(&ce).as_bytes()));
+                    }
+                    batch.push(ce);
+                    refs.push(v);
+                }
+                Err(k) => reverting.push((ce, k)),
+            }
+        }
+        ctx.begin_case(i, &batch_source(&batch), &res);
+        if !batch.is_empty() {
+            run_batch(&mut am, &batch, &refs, &mut res);
+            if res.samples.len() < 2 {
+                res.sample(json!({"expressions": batch.iter().map(expr_text).collect::<Vec<_>>(), "reference_values": refs.iter().map(hex::encode).collect::<Vec<_>>()}));
+            }
+        }
+        // would-revert expressions are expensive (6 compiles each): take at most one per batch
+        if let Some((ce, k)) = reverting.first() {
+            run_would_revert(&mut am, ce, k, &mut res);
+        }
+        ctx.end_case();
+        i += 1;
+    }
+    res
+}
+
+fn replay(v: &Value) -> ShardResult {
+    let mut res = ShardResult::default();
+    let work = work_dir("C06").join("replay");
+    clean_dir(&work);
+    let mut am = Amortised::new(&work);
+    let src = v["source"].as_str().unwrap_or("").to_string();
+    let profile = if v["profile"].as_str() == Some("release") { Profile::Release } else { Profile::Debug };
+    res.evaluations = 1;
+    match am.compile("gencase", &src, profile) {
+        Ok(c) => {
+            if v["kind"].as_str() == Some("would_revert") {
+                let obs = run_script(&c.pkg.bytecode.bytes, &[]);
+                if !obs.outcome.reverted() {
+                    res.violation(format!("value-substituted-for-reverting-expression:{}:replayed", v["variant"].as_str().unwrap_or("")), format!("`{}` compiled and produced {}", v["expr"].as_str().unwrap_or(""), obs.short()), v.clone());
+                }
+            } else {
+                let data = hex::decode(v["script_data"].as_str().unwrap_or("")).unwrap_or_default();
+                let expected = v["expected"].as_str().unwrap_or("").to_string();
+                let obs = run_script(&c.pkg.bytecode.bytes, &data);
+                if obs.outcome.reverted() || obs.logs.iter().any(|(_, d)| hex::encode(d) != expected) {
+                    res.violation("compile-time-value-differs:replayed".to_string(), format!("`{}` expected {expected}, observed {}", v["expr"].as_str().unwrap_or(""), obs.short()), v.clone());
+                }
+            }
+        }
+        Err(e) => res.inconclusive(format!("recorded program no longer compiles: {e}")),
+    }
+    res
+}
